@@ -152,6 +152,11 @@ the machinery, never in the properties:
   (it can never wait: `blocking` now counts the calls that *may* wait — a blocking send on a full queue, a blocking
   receive); `next()` leaving the receiver to `Drop` (harmless once the subscription handle, the last owner of the sending
   end, is gone: the clause asks for one of the two);
+* a fourth round (3 of 18): `middleware_executed(count.max(1))` (a count of 0 never reaches the method: the Kani harness now
+  takes n >= 1, and a separate harness asks for n = 0 only that nothing decreases); `while let Some(tx) = ...take()` in
+  `close()` (a loop the contract has no invariant for havocs everything: a function with more loops than the template has
+  loop contracts for is now lost, not verified); the disconnection arm of `next()` returning at once (unreachable while the
+  iterator holds its subscription: nothing is asked for that case any more);
 * (found by review, not by an edit) the model pinned `action_executed`, `effect_executed`, `state_notified`,
   `subscriber_notified` and "the shutdown marker counts as received" → only the counters of the balance
   equations are modelled, the marker may or may not be booked.
